@@ -292,14 +292,17 @@ def run(ctx, res):
     for raw in order:
         reqs.append('minimize ' + raw)
         reqs.append('validate %s %s' % (raw, pairs[raw]['min']))
+        reqs.append('rawok ' + raw)
     outs = model.run(reqs)
     nontrivial = 0
+    hyps_ok = 0
     sub_pairs = 0
     fams = {}
     for k, raw in enumerate(order):
         p = pairs[raw]
-        mod = outs[2 * k]
-        val = outs[2 * k + 1]
+        mod = outs[3 * k]
+        val = outs[3 * k + 1]
+        hyp = outs[3 * k + 2]
         i, which = p['where'][0]
         replay = dict(grammar=texts[i].decode('latin-1'), automaton=which, family=p['fam'], raw=raw, rust_min=p['min'],
                       model_min=mod, validator=val)
@@ -340,8 +343,15 @@ def run(ctx, res):
             t1_ok = False
         if t1_ok:
             res.traces_validated += 1
+        if hyp == '(rawok true true)':
+            hyps_ok += 1
         if not ok:
             res.violations.append(report.Violation('C03: ' + why, dict(replay, kind='spec-judgement', why=why)))
+        elif hyp != '(rawok true true)':
+            # theorem C03_minimise_checked does not apply to this raw automaton
+            res.violations.append(report.Violation(
+                'hypotheses of C03_minimise_checked (wfb, trim_dec) fail on a raw automaton: ' + hyp,
+                dict(replay, kind='theorem-hypotheses', rawok=hyp), found_input=False))
         elif not t1_ok:
             res.violations.append(report.Violation(
                 'tie T1 broken at stage min: model minimize(RAW) differs from Rust MIN',
@@ -363,3 +373,4 @@ def run(ctx, res):
     res.extra['distinct_raw_automata'] = len(order)
     res.extra['distinct_within_word_automata'] = sub_pairs
     res.extra['nontrivial_by_family'] = fams
+    res.extra['raw_automata_satisfying_theorem_hypotheses'] = hyps_ok
